@@ -20,7 +20,8 @@ EXPLANATION = (
     'check and has no legal move (mate first); (3) EngineControl::setupPosition pushes the hash before makeMove and drops the history '
     'only on reversible-move information (half-move clock zero, or more than 100 reversible plies); Search::init takes the first-new '
     'index from the history size; (4) every Game::GameState enumerator has an arm in getGameStateString and getPGNResultString.'
-    ' (5) the en-passant mask tables are correct for all 8 files and makeMove records an en-passant square only under the mask test (a spurious en-passant square makes rule-equal positions hash differently).')
+    ' (5) the en-passant mask tables are correct for all 8 files and makeMove records an en-passant square only under the mask test (a spurious en-passant square makes rule-equal positions hash differently).'
+    ' Added later; (7) the index set, key comparison and claim rule of the repetition scan canClaimDrawRep (finite evaluation of its own init / bound / step expressions for list lengths 0..16 and clocks 0..20); (8) every replayed move on a game position (UCI move list, console move and redo) is followed by fixupEPSquare before its key is read again (found and fixed defects D13, D14).')
 UNDECIDED = ('equality of hash keys for rule-equal positions beyond the structural clauses (value-level); the index arithmetic of canClaimDrawRep (start -4, step 2, clock bound) - value-level off-by-one territory; console draw '
              'claim semantics. Noticed, outside the property as stated and therefore not reported: WorkerThread::doSearch pushes the hash '
              'of the position AFTER the root move, so helper threads miss in-tree repetitions of the root position (never compared at the root level).')
@@ -67,6 +68,7 @@ def run(fb, rep, tier):
     c5_ep_tables(fb, rep)
     c6_parallel_lists(fb, rep)
     c7_repetition_scan(fb, rep)
+    c8_history_normal_form(fb, rep)
 
 
 def c6_parallel_lists(fb, rep):
@@ -537,3 +539,57 @@ def _strip7(t):
     while isinstance(t, dict) and t.get('k') == 'cast':
         t = t.get('e')
     return t
+
+
+# ----------------------------------------------------------------------------- .8
+
+REPLAYERS = ('EngineControl::setupPosition', 'Game::processString', 'Game::handleCommand')
+
+
+def c8_history_normal_form(fb, rep):
+    """K2: repetition is decided by comparing hash keys / positions of the game history.  makeMove records an en-passant
+    square whenever an enemy pawn stands beside the double-pushed pawn, also when the capture is illegal (pinned pawn);
+    under the rules such a position equals its later occurrences without the square.  The repo's answer is
+    TextIO::fixupEPSquare, which readFEN and the console game apply; so *every* place that replays game moves onto the
+    position the history is taken from must apply it after each makeMove, before the position's key is read again or the
+    function returns - otherwise the first occurrence carries a different key and a third occurrence is not a draw."""
+    clause = 'C11.8'
+    n = 0
+    for nm in REPLAYERS:
+        f = fb.find1(nm)
+        if rep.need(clause, f, nm) is None:
+            continue
+        # objects that are, or become, the game position of the class
+        game = set()
+        for _, _, e in f.events():
+            tgt = src = None
+            if e.get('k') == 'asg':
+                tgt, src = e.get('l'), e.get('r')
+            elif e.get('k') == 'call' and cname(e).split('::')[-1] == 'operator=' and e.get('args'):
+                tgt, src = e.get('recv'), e['args'][0]
+            if tgt is not None and ap(tgt) == 'this.pos' and ap(_strip7(src)):
+                game.add(ap(_strip7(src)))
+        game.add('this.pos')
+        k_site = 0
+        for b, i, e in f.events():
+            if not (e.get('k') == 'call' and cname(e) == 'Position::makeMove' and ap(e.get('recv')) in game):
+                continue
+            obj = ap(e['recv'])
+            k_site += 1
+            n += 1
+
+            def is_fix(x, _o=obj):
+                return x is not None and x.get('k') == 'call' and cname(x) == 'TextIO::fixupEPSquare' and x.get('args') and ap(_strip7(x['args'][0])) == _o
+
+            def reads_key(x, _o=obj, _self=e):
+                if x is None:
+                    return True          # function exit
+                if x is _self:
+                    return False
+                if x.get('k') == 'call' and ap(x.get('recv')) == _o and cname(x) in ('Position::zobristHash', 'Position::historyHash', 'Position::makeMove'):
+                    return True
+                return False
+            w = f.path_avoiding((b, i), reads_key, lambda x: x is not None and (is_fix(x) or x.get('k') == 'throw'))
+            rep.ob(clause, 'K2 must-pass-through', '%s: replayed move #%d on the game position is followed by fixupEPSquare before its key is read again or the function returns'
+                   % (nm, k_site), w is None, R.site(f, e), '' if w is None else 'unnormalised path: ' + ' -> '.join('B%s@%s' % x for x in w[-4:]), f.sname)
+    rep.floor(clause, 'replayed moves on a game position', n, 3)
